@@ -284,6 +284,64 @@ def run(prop, tier):
         states += b.distinct + bt.distinct
         transitions += b.generated + bt.generated
         extra_notes.append("MC_Builtins + Trace_Builtins: %d localization/status cases of the built-in adapters judged" % len(bobs))
+        # application stage: "the CONFIGURED message": the same cases through passage::start(Config) -- the localization tables come from the
+        # configuration value, nobody can be routed, the client reports the locale in Client Information; judged by the same clause
+        lcases = [c["case"] for c in cases if c["kind"] == "loc" and c["case"]["requested"] and c["case"]["tables"]]
+        lcases = lcases[seed % 7::(29 if tier == "quick" else 3)]
+        ascs = []
+        for c in lcases:
+            msgs = {}
+            for t in c["tables"]:
+                name = "_".join(t)
+                if c["key"] == "k1" or t[0] == "de":
+                    msgs[name] = {"disconnect_no_target": "T|%s|%s|{p}|{p}" % (name, c["key"]), "locale": name}
+                else:
+                    msgs[name] = {"locale": name}
+            ascs.append({"family": "C03app", "timeoutS": 8, "locale": "_".join(c["requested"]),
+                         "adapters": {"authentication": {"fixed": {"profile": {"id": "11111111-2222-4333-8444-555555555555", "name": "Fixed"}}},
+                                      "discovery": {"fixed": {"targets": []}},
+                                      "localization": {"fixed": {"default_locale": "_".join(c["default"]), "messages": msgs}}}})
+        lwd = os.path.join(wd, "locapp")
+        os.makedirs(lwd, exist_ok=True)
+        linp, loutp = os.path.join(lwd, "in.ndjson"), os.path.join(lwd, "obs.ndjson")
+        vlib.write_ndjson(linp, ascs)
+        hxa = vlib.cargo_build("hx-app")
+        vlib.run_bin(hxa, ["serve", "--in", linp, "--out", loutp], timeout=900)
+        lobs = vlib.read_ndjson(loutp)
+        if len(lobs) != len(ascs):
+            raise vlib.ToolError("hx-app serve recorded %d observations for %d localization cases" % (len(lobs), len(ascs)))
+        lrecs, lkeep = [], []
+        for c, o in zip(lcases, lobs):
+            if o.get("end") != "disconnect":
+                continue      # no Disconnect observed: not an observation of the localization (C03_NoTargetDisconnect covers the rest)
+            rs = o.get("reason")
+            f = rs.split("|") if isinstance(rs, str) else []
+            if rs == "disconnect_no_target":
+                got = {"from": [], "text": "key"}
+            elif len(f) == 5 and f[0] == "T" and f[2] == c["key"]:
+                got = {"from": f[1].split("_"), "text": "template"}
+            else:
+                got = {"from": [], "text": "other:%s" % rs}
+            lrecs.append({"kind": "loc", "case": c, "got": got})
+            lkeep.append(o)
+        if len(lrecs) < 0.8 * len(ascs):
+            raise vlib.ToolError("application stage (localization): only %d of %d logins ended in a Disconnect: %s" % (len(lrecs), len(ascs), json.dumps(lobs[:2])[:600]))
+        ltrace = os.path.join(lwd, "trace.ndjson")
+        vlib.write_ndjson(ltrace, lrecs)
+        lt = vlib.run_tlc("Trace_Builtins", "Trace_Builtins.cfg", wd, workers=1, timeout=600, markers=("FAIL", "NOTCONSUMED"),
+                          env_extra={"TRACE": ltrace}, java_opts=["-Xss1g", "-Dtlc2.tool.queue.IStateQueue=StateDeque"])
+        if not lt.ok or lt.marked["NOTCONSUMED"] or lt.distinct != len(lrecs) + 1:
+            raise vlib.ToolError("Trace_Builtins (application stage) did not consume all %d records:\n%s" % (len(lrecs), lt.output[-2000:]))
+        for f in lt.marked["FAIL"]:
+            r = lrecs[f["line"] - 1]
+            c = r["case"]
+            rep.violation("C03 C03_LocaleFallbackChain [through the application: requested=%s default=%s tables=%s key=%s]" % ("_".join(c["requested"]), "_".join(c["default"]),
+                          ",".join(sorted("_".join(t) for t in c["tables"])), c["key"]),
+                          {"failing_clauses": ["B_LocalizedFromTable"], "stage": "application (passage::start on loopback; localization tables from the configuration value)",
+                           "case": c, "observed": r["got"], "raw": lkeep[f["line"] - 1]})
+        states += lt.distinct
+        transitions += lt.generated
+        extra_notes.append("application stage: %d Disconnect texts through passage::start with configured localization tables judged by Trace_Builtins" % len(lrecs))
     if prop == "C04":
         # "the CONFIGURED maximum frame size": frames around the operator's value against the whole application (passage::start from a
         # configuration value), judged by Trace_Listener
